@@ -72,14 +72,20 @@ def cases(tier, seed):
                 for pr in range(0, n + 1):
                     out.append({"key": f"cgne/{m}x{n}/c={c:g}/tol={tol:g}/pr={pr}", "ep": "cgne", "m": m, "n": n, "cond": c, "tol": tol, "pr": pr})
     # larger problems: n > test_sketch_size = 8, where the test sketch is not injective any more
-    for (m, n) in ((10, 9), (12, 12), (14, 10)):
+    for (m, n) in ((10, 9), (12, 12), (14, 10), (9, 7)):
         for bs in (4, 8, 9):
+            if bs > n:
+                continue  # the property quantifies over block sizes 1..min(m,n) (observation: block sizes in (n, m] return a left inverse that is not A^+)
             for cs in ("qr", "spd"):
                 if cs == "spd" and bs == 4 and tier == "quick":
                     continue
                 out.append({"key": f"col-large/{m}x{n}/b={bs}/{cs}", "ep": "col", "m": m, "n": n, "cond": 10.0, "tol": 1e-6, "bs": bs, "cs": cs, "large": True})
             out.append({"key": f"row-large/{n}x{m}/b={bs}", "ep": "row", "m": n, "n": m, "cond": 10.0, "tol": 1e-6, "bs": bs, "cs": "qr", "large": True})
-        out.append({"key": f"hyb-large/{m}x{n}", "ep": "hyb", "m": m, "n": n, "cond": 10.0, "tol": 1e-6, "p": 3, "T": 3, "r": 8, "cs": "qr", "large": True})
+        out.append({"key": f"hyb-large/{m}x{n}", "ep": "hyb", "m": m, "n": n, "cond": 10.0, "tol": 1e-6, "p": 3, "T": 3, "r": min(8, n), "cs": "qr", "large": True})
+        # block sizes around the width of the hybrid's monitoring sketch (min(6, n)) and of the RSP test sketch, both micro-solvers
+        for r_ in (5, 6, 7):
+            for cs in ("qr", "spd"):
+                out.append({"key": f"hyb-large/{m}x{n}/r={r_}/{cs}", "ep": "hyb", "m": m, "n": n, "cond": 10.0, "tol": 1e-6, "p": 2, "T": 2, "r": r_, "cs": cs, "large": True})
     # CGNE needs more than 100 iterations on larger ill-conditioned inputs (periodic code paths inside the loop)
     for (m, n, cnd) in ((40, 30, 1000.0), (48, 40, 300.0)):
         for tol in (1e-3, 1e-6):
